@@ -1063,6 +1063,34 @@ pub fn fix_crcs(bytes: &mut [u8]) -> usize {
     n
 }
 
+/// Grammar-independent checksum fix-up: every `63 xx xx 00` (2-byte unsigned followed by an end
+/// marker) that is followed by the end of input or by a list TLF is taken as the trailer of a
+/// message that starts right after the previous trailer; its checksum is recomputed. Unlike
+/// `fix_crcs` this also works for messages the grammar rejects (wrong arity, wrong types), which
+/// is exactly where the parsers' structural checks must decide. Returns the number patched.
+pub fn fix_crcs_scan(bytes: &mut [u8]) -> usize {
+    let mut n = 0;
+    let mut start = 0usize;
+    let mut p = 0usize;
+    while p + 4 <= bytes.len() {
+        let next_ok = p + 4 == bytes.len() || bytes[p + 4] & 0x70 == 0x70;
+        if bytes[p] == 0x63 && bytes[p + 3] == 0x00 && next_ok && p > start {
+            let crc = crc16_x25(&bytes[start..p]);
+            let want = [(crc & 0xff) as u8, (crc >> 8) as u8];
+            if bytes[p + 1..p + 3] != want {
+                bytes[p + 1] = want[0];
+                bytes[p + 2] = want[1];
+                n += 1;
+            }
+            start = p + 4;
+            p += 4;
+        } else {
+            p += 1;
+        }
+    }
+    n
+}
+
 #[cfg(test)]
 mod tests {
     use super::*;
